@@ -140,7 +140,7 @@ def run_sequence(ctx, rng, n_ops, with_model=True):
                 gid = rng.choice(groups)
                 exists = (gid, et) in spec.m
                 bycol = mode[(gid, et)] if exists else rng.random() < 0.4
-                give_bycol = bycol if rng.random() < 0.8 else not bycol       # sometimes in the other link mode
+                give_bycol = bycol if rng.random() < 0.6 else not bycol       # often in the other link mode
                 elems = [tab.name.at[i] for i in some] if give_bycol else some
                 G.attach_to_group(net, gid, [et], [list(elems)], reference_columns=("name" if give_bycol else None))
                 spec.attach(gid, et, some)
